@@ -148,6 +148,26 @@ CHECKS = {
              "choices; the loaded matrix must equal the description, two renderings must load alike, and no load error may be reported.",
              note=TB + "Model: coq/model/Readers.v. NOT proved: that the readers' regular expressions and lxml/shlex/json walks accept every permitted spelling (searched, not proved). The independent writers and their envelope assumptions (e.g. KCD big-endian offset = MSB in sequential MSB0 numbering) are part of the trusted base.",
              technique=PT, ref="5/C15"),
+ "C18": dict(text="PARTIAL. Theorems (coq/props/C18.v): option-string parsing (comma lists, old:new tuples, ecu:rx/tx suffixes, integers) round-trips and rejects exactly the "
+             "malformed shapes; for ANY choice of stage operations the pipeline with no options is the identity, its result is independent of the order "
+             "options are given on the command line and equals the composition of the stages in convert()'s fixed order (singles, pairs, any list), "
+             "selection options run first and share one target, errors propagate; each directly modelled option (skipLongDlc, cutLongFrames with minimal "
+             "length via C16, setFrameFd/unsetFrameFd, frameIdIncrement, changeFrameId, addFrameReceiver, recalcDLC, PDU-container handling) yields "
+             "exactly the documented change and nothing else; the remaining options are tied to the proved operations of C10/C11/C12/C16/C17 by quoting "
+             "those theorems under C18 names. The search decides it on the real tool: generated DBC files converted through the click entry point and "
+             "through convert(), output re-read and compared with an independent per-option oracle, all single options with argument variations and "
+             "ordered pairs; no-option output byte-identical to load+dump.",
+             note=TB + "Model: coq/model/Convert.v (pipeline generic over the foreign operations; matrix types of the other models are not unified). click, file I/O, the DBC reader/writer and options after the PDU block are outside the model.",
+             technique=PT, ref="5/C18"),
+ "C20": dict(text="PARTIAL. Theorems (coq/props/C20.v): for ANY line-step function, lines that fail before their first mutation (or that no branch recognises) "
+             "are neutral - reading with any interleaving of such lines gives the same state and post-processing result - and under `preserves_introduced` "
+             "everything a prefix introduced is still present with the same fields after any continuation; instantiated for a DBC-like and a SYM-like "
+             "statement language mirroring the per-line try/except structure of the readers (fail-before-mutation per statement kind, insertions outside a "
+             "frame's signal list, prefix keeps frames and signals, post-processing total, SYM load errors recorded once per bad line), with _refuted "
+             "witnesses for the as-found readers and for the one statement kind left unrepaired (BA_ values). The search decides it on the real readers: "
+             "malformed lines of three kinds at every inter-statement position, multisets of insertions, every byte cut of generated and shipped files.",
+             note=TB + "Model: coq/model/LineFold.v (after eight reader fixes). The regular expressions / splitting, multi-line comment follow-ups and most statement kinds' field parsing are outside the model (searched, not proved).",
+             technique=PT, ref="5/C20"),
 }
 NOT_YET = {}
 props = [json.loads(l) for l in open(os.path.join(V, "properties.jsonl"))]
